@@ -122,11 +122,60 @@ def display_matrix(ck):
         shutil.rmtree(scratch, ignore_errors=True)
 
 
+EDITION_PROGRAM = """%(imports)s
+#[derive(Debug)] struct P { x: i32, name: String }
+fn main() {
+    let r = std::panic::catch_unwind(|| {
+        let p = P { x: 1, name: "n".to_string() };
+        assert_struct!(p, P { x: > 5, name: "m" });
+    });
+    match r {
+        Ok(()) => println!("RESULT no-panic"),
+        Err(e) => {
+            let msg = if let Some(s) = e.downcast_ref::<String>() { s.clone() } else if let Some(s) = e.downcast_ref::<&str>() { s.to_string() } else { "<payload is neither String nor &str>".to_string() };
+            println!("RESULT panic\\n{}\\nEND", msg);
+        }
+    }
+}
+"""
+
+
+def editions(ck):
+    """The calling crate's edition must not matter: one ordinary catchable panic whose message is the report
+    (`panic!` with a single literal is a format string only from edition 2021 on)."""
+    import e2e
+    dist = {}
+    eds = ["2015", "2018", "2021", "2024"]
+    for ed in eds:
+        proj = e2e.Project("c06ed" + ed, edition=ed, prelude=False)
+        try:
+            imports = "#[macro_use] extern crate assert_struct;" if ed == "2015" else "use assert_struct::assert_struct;"
+            proj.add_bin("ed", EDITION_PROGRAM % dict(imports=imports))
+            res = proj.build()
+            if not res["ed"]["ok"]:
+                dist[ed + ": does not compile"] = 1
+                ck.report("edition-rejected:" + ed, "a failing assertion does not compile in a crate of edition " + ed,
+                          dict(edition=ed, rustc=[(d["code"], d["message"]) for d in res["ed"]["diags"]][:3]))
+                continue
+            rc, out, err = proj.run("ed")
+            msg = out.split("RESULT panic\n", 1)[1].split("\nEND", 1)[0] if "RESULT panic\n" in out else None
+            ok = msg is not None and "assert_struct! failed" in msg and "got 1" in msg and 'got "n"' in msg
+            dist[ed + (": report in the panic message" if ok else ": NO report")] = 1
+            if not ok:
+                ck.report("no-report:edition-" + ed, "a failing assertion in a crate of edition %s does not panic with the report as its message" % ed,
+                          dict(edition=ed, stdout=out[:600], stderr=err[-400:]))
+        finally:
+            proj.cleanup()
+    ck.corr_record("T3 editions (a dependent crate of each edition with one failing assertion under catch_unwind: the payload must be the report)",
+                   len(eds), len(eds), 0, dist, samples=[dict(edition="2018")], exhaustive=True, rule="editions 2015, 2018, 2021, 2024")
+
+
 def run(ck):
     ck.prove(["AsModel.Theorems.C06"])
     ck.build_harness("rt")
     renderer_contract(ck)
     display_matrix(ck)
+    editions(ck)
     ck.assumptions += [
         "annotate-snippets is represented by its observed contract (no panic iff every in-range offset is a char boundary), validated against the real renderer on every run",
         "file-system faults are modelled as 'read_to_string fails -> None' (missing, directory, not UTF-8); permission faults are not exercised (the sandbox runs as root)",
